@@ -137,6 +137,16 @@ def run(chk):
     chk.floor('C10.R2', 'relay loops', n_relay, 2)
 
     # ---- R1: information flow of hands ------------------------------------------------------------------------------
+    try:
+        _hand_flows(chk, repo, sm, srv)
+    except AnalysisError as e:
+        deferred = e
+    else:
+        deferred = None
+    _rest(chk, repo, sm, deferred)
+
+
+def _hand_flows(chk, repo, sm, srv):
     n_flows = 0
     for mname, fn in srv.methods.items():
         q = f'Server.{mname}'
@@ -251,6 +261,13 @@ def run(chk):
     chk.require(not leaks, 'C10.R1', repo.where(sm, pt.node), 'PlayerThread', 'PlayerThread receives the deal', 'seat threads have no access to the deal',
                 'a PlayerThread method takes the whole deal: a seat thread could send any hand')
 
+
+
+def _rest(chk, repo, sm, deferred):
+    # ---- R5: what crosses a queue is text built by the sender (the discipline rule of C09.R1, evaluated again here) --------
+    from .c09 import discipline
+    discipline(chk, rule='C10.R5')
+
     # ---- R4: abstract traces -----------------------------------------------------------------------------------------
     res = S.run_family(chk, ['entitlement'])
     S.record(chk, res)
@@ -259,3 +276,5 @@ def run(chk):
     chk.exhaustive = chk.tier == 'thorough'
     chk.extra['sessions'] = {'runs': len(res), 'configurations': len({r['vid'] for r in res}), 'policies': sorted({r['policy'] for r in res}),
                              'events_interpreted': sum(r['stats'].get('events', 0) for r in res)}
+    if deferred is not None:
+        raise deferred
